@@ -155,6 +155,9 @@ static str apply(String & s, const std::vector<str> & a, bool allowAlias, String
    if (c == "<<b") {s << (a[1] == "1"); return "-";}
    if (c == "++")  {s++; return "-";}
    if (c == "--")  {s--; return "-";}
+   if (c == "dist"){SA(1); const uint32 r = s.GetDistanceTo(S1, U(a[2])); if (r != s.GetDistanceTo(S1(), U(a[2]))) complaint = "GetDistanceTo(String) != GetDistanceTo(cstr)"; return "u"+num(r);}
+   if (c == "ncmp") {SA(1); const int r = sgn(s.NumericAwareCompareTo(S1)); if (r != sgn(s.NumericAwareCompareTo(S1()))) complaint = "NumericAwareCompareTo(String) != (cstr)"; return "i"+num(r);}
+   if (c == "ncmpi"){SA(1); const int r = sgn(s.NumericAwareCompareToIgnoreCase(S1)); if (r != sgn(s.NumericAwareCompareToIgnoreCase(S1()))) complaint = "NumericAwareCompareToIgnoreCase(String) != (cstr)"; return "i"+num(r);}
    if (c == "eqh") {return s.Equals(CH(1)) ? "b1" : "b0";}
    if (c == "eqhi"){return s.EqualsIgnoreCase(CH(1)) ? "b1" : "b0";}
    if (c == "swhi"){return s.StartsWithIgnoreCase(CH(1)) ? "b1" : "b0";}
@@ -232,6 +235,13 @@ static str apply(String & s, const std::vector<str> & a, bool allowAlias, String
    if (c == "waw")  {SA(1); CBuf sep(unhex(a[2])); prod = new String(s.WithAppendedWord(S1, sep._p)); if (*prod != s.WithAppendedWord(S1(), sep._p)) complaint = "WithAppendedWord(String) != (cstr)"; return "r";}
    if (c == "wpw")  {SA(1); CBuf sep(unhex(a[2])); prod = new String(s.WithPrependedWord(S1, sep._p)); return "r";}
    if (c == "ind")  {prod = new String(s.IndentedBy(U(a[1]), CH(2))); return "r";}
+   if (c == "esc")
+   {
+      CBuf seps(unhex(a[1]));
+      prod = new String(s.WithCharsEscaped(seps._p, CH(2)));
+      if ((unhex(a[1]).size() == 1)&&(*prod != s.WithCharsEscaped(unhex(a[1])[0], CH(2)))) complaint = "WithCharsEscaped(cstr) != WithCharsEscaped(char)";
+      return "r";
+   }
    if (c == "wsfh") {prod = new String(s.WithSuffix(CH(1))); return "r";}
    if (c == "wpfh") {prod = new String(s.WithPrefix(CH(1))); return "r";}
    if (c == "wosfi"){SA(1); prod = new String(s.WithoutSuffixIgnoreCase(S1, U(a[2]))); return "r";}
@@ -347,6 +357,33 @@ static str ref_apply(str & s, const std::vector<str> & a, bool & hasProd, str & 
    if (c == "<<b") {s += (a[1] == "1") ? "true" : "false"; return "-";}
    if (c == "++")  {s += ' '; return "-";}
    if (c == "--")  {if (!s.empty()) s.erase(s.size()-1); return "-";}
+   if (c == "dist")
+   {
+      // textbook Levenshtein distance (full matrix), capped at the maximum
+      const str o = RS(1);
+      std::vector< std::vector<uint32_t> > d(s.size()+1, std::vector<uint32_t>(o.size()+1, 0));
+      for (size_t i=0; i<=s.size(); i++) d[i][0] = (uint32_t)i;
+      for (size_t j=0; j<=o.size(); j++) d[0][j] = (uint32_t)j;
+      for (size_t i=1; i<=s.size(); i++) for (size_t j=1; j<=o.size(); j++)
+         d[i][j] = std::min(std::min(d[i-1][j]+1, d[i][j-1]+1), d[i-1][j-1]+((s[i-1] == o[j-1]) ? 0u : 1u));
+      return "u"+num(std::min(d[s.size()][o.size()], U(a[2])));
+   }
+   if ((c == "ncmp")||(c == "ncmpi"))
+   {
+      // natural order has no one-line ideal; what the ideal string does fix: equal strings compare equal, and for
+      // digit-free, space-free ASCII operands the order is the plain (resp. case-folded) byte order
+      const str o = RS(1);
+      if (s == o) return "i0";
+      bool plain = true;
+      for (size_t i=0; i<s.size(); i++) if ((isdig(s[i]))||(s[i] == ' ')||((s[i] >= 9)&&(s[i] <= 13))||((unsigned char)s[i] >= 128)) plain = false;
+      for (size_t i=0; i<o.size(); i++) if ((isdig(o[i]))||(o[i] == ' ')||((o[i] >= 9)&&(o[i] <= 13))||((unsigned char)o[i] >= 128)) plain = false;
+      if (plain)
+      {
+         const int r = (c == "ncmp") ? cmpsign(s, o) : cmpsign(upper(s), upper(o));
+         if ((r != 0)||(c == "ncmp")) return "i"+num(r);
+      }
+      return "?";
+   }
    if (c == "eqh") {return ((s.size() == 1)&&(s[0] == RH(1))) ? "b1" : "b0";}
    if (c == "eqhi"){return ((s.size() == 1)&&(lc(s[0]) == lc(RH(1)))) ? "b1" : "b0";}
    if (c == "swhi"){return ((!s.empty())&&(lc(s[0]) == lc(RH(1)))) ? "b1" : "b0";}
@@ -423,6 +460,30 @@ static str ref_apply(str & s, const std::vector<str> & a, bool & hasProd, str & 
          r += w;
          if ((!tail.empty())&&(!ends(r, sep))&&(!starts(tail, sep))) r += sep;
          prod = r + tail;
+      }
+      return "r";
+   }
+   if (c == "esc")
+   {
+      // reference: a character of (seps) gets the escape character in front of it, so does a free-standing escape
+      // character (one not followed by another escape character, a separator, or the end); a character that is itself
+      // preceded by an unpaired escape character is left alone
+      const str seps = unhex(a[1]); const char esc = RH(2);
+      prod = s;
+      if (esc == 0) return "r";
+      bool any = false; for (size_t i=0; i<s.size(); i++) if ((seps.find(s[i]) != str::npos)||(s[i] == esc)) any = true;
+      if (!any) return "r";
+      prod.clear();
+      bool prevWasEscape = false; char prevCh = 0;
+      for (size_t i=0; i<s.size(); i++)
+      {
+         const char cur = s[i]; const char next = (i+1 < s.size()) ? s[i+1] : '\0';
+         const bool curIsSep = (seps.find(cur) != str::npos);
+         const bool nextIsSep = (next != 0)&&(seps.find(next) != str::npos);
+         if ((!prevWasEscape)&&((curIsSep)||((cur == esc)&&(next != 0)&&(next != esc)&&(!nextIsSep)))) prod += esc;
+         prod += cur;
+         prevWasEscape = ((cur == esc)&&(prevCh != esc));
+         prevCh = cur;
       }
       return "r";
    }
